@@ -144,8 +144,8 @@ def family_a(tier):
 BUILTIN_LIKE = ["next", "iter", "filter", "format"]
 
 
-def render_cycle(pkg, kinds, entry, cut, two_mods, entry_style="plain", local_import=False, builtin_names=False, attr_var=False):
-    files = _render_cycle(pkg, kinds, entry, cut, two_mods, entry_style, local_import, attr_var)
+def render_cycle(pkg, kinds, entry, cut, two_mods, entry_style="plain", local_import=False, builtin_names=False, attr_var=False, soften_method=None):
+    files = _render_cycle(pkg, kinds, entry, cut, two_mods, entry_style, local_import, attr_var, soften_method)
     if builtin_names:
         # the members of the cycle are user functions whose names coincide with builtins
         import re
@@ -156,7 +156,7 @@ def render_cycle(pkg, kinds, entry, cut, two_mods, entry_style="plain", local_im
     return files
 
 
-def _render_cycle(pkg, kinds, entry, cut, two_mods, entry_style="plain", local_import=False, attr_var=False):
+def _render_cycle(pkg, kinds, entry, cut, two_mods, entry_style="plain", local_import=False, attr_var=False, soften_method=None):
     """c_i --kinds[i]--> c_{(i+1)%n}; root plainly calls c_entry; if cut is not None that edge is replaced by a leaf call."""
     n = len(kinds)
     top = (lambda: [VLOG_IMPORT, ""]) if local_import else (lambda: [VLOG_IMPORT, f"import {pkg}.m0", f"import {pkg}.m1" if two_mods else "", "", "VX = 1", ""])
@@ -197,8 +197,9 @@ def _render_cycle(pkg, kinds, entry, cut, two_mods, entry_style="plain", local_i
             else:
                 lines.append(f"    r = xu.call0({name})")
         elif kind == "method":
+            # (soften_method: the first version of a class that is redefined later in the same process - its method calls nothing)
             mods[here] += [f"class K{i}(object):", "    def m(self):"] + ["    " + l for l in limp] + [f"        vlog.rec('K{i}.m')",
-                           f"        return {ref(j, here, False)}()", "", ""]
+                           f"        return {'xu.e0' if soften_method == i else ref(j, here, False)}()", "", ""]
             lines.append(f"    r = K{i}().m()")
         lines += [f"    return ('c{i}', r)", "", ""]
         mods[here] += lines
@@ -323,7 +324,8 @@ def render_case(case, pkg):
         return render_paths(pkg, case["paths"], case["placement"], case["special"])
     if case["fam"] == "B":
         return render_cycle(pkg, case["kinds"], case["entry"], case["cut"], case["two"],
-                            case.get("entry_style", "plain"), case.get("local_import", False), case.get("builtin_names", False), case.get("attr_var", False))
+                            case.get("entry_style", "plain"), case.get("local_import", False), case.get("builtin_names", False), case.get("attr_var", False),
+                            case.get("soften_method"))
     return render_nested_eval(pkg, case["chain"], case["with_eval"], case["via"])
 
 
@@ -382,7 +384,24 @@ class Runner(object):
         self.n += 1
         self.fresh_store()
         pkg = f"cy{os.getpid()}_{self.n}"
-        write_files(self.root, render_case(case, pkg))
+        if case.get("redefine"):
+            # the same package first holds the well-formed twin (one edge cut), is evaluated, and is then rewritten and reloaded in
+            # the running process with the ill-formed code
+            cut_case = dict(case, soften_method=case["kinds"].index("method"), redefine=None)
+            files0 = render_case(cut_case, pkg)
+            write_files(self.root, files0)
+            self.w.call("call", module="dds", func="accept_module", args=[pkg])
+            r0 = self.w.call("eval", module=f"{pkg}.m0", func="root", style="eval")
+            if r0["exc"] is not None:
+                raise common.HarnessError("the well-formed first version was rejected: " + str(r0["exc"])[:300])
+            files1 = render_case(case, pkg)
+            write_files(self.root, files1)
+            for k_, rel in enumerate(sorted(files1)):
+                os.utime(os.path.join(self.root, rel), (1700000000 + self.n * 100 + k_, 1700000000 + self.n * 100 + k_))
+            self.w.call("call", module="vf.harness.session", func="_reload_present", args=[[pkg, f"{pkg}.m1", f"{pkg}.m0"]])
+            self.fresh_store()
+        else:
+            write_files(self.root, render_case(case, pkg))
         if case.get("late_accept"):
             # the package is first met while it is not accepted (whatever dds answers), and accepted afterwards
             self.w.call("eval", module=f"{pkg}.m0", func="root", style="eval")
@@ -441,6 +460,8 @@ def shard(idx, n, tier, seed):
     cases = family_a(tier) + family_b(tier, ev.excluded if idx == 0 else None) + family_c(tier)
     # rotate by seed so that different seeds put different cases first (the set is the same)
     mine = [dict(c, late_accept=True) if (i // n) % 6 == 3 else c for i, c in enumerate(cases) if (i + seed) % n == idx]
+    mine = [dict(c, redefine=1 + (k % len(c["kinds"]))) if (c["fam"] == "B" and c.get("cut") is None and "method" in c["kinds"] and c.get("entry_style", "plain") == "plain"
+                                                          and not c.get("late_accept") and not c.get("local_import") and k % 3 == 0) else c for k, c in enumerate(mine)]
     mine = [dict(c, warm=True) if (c["fam"] == "A" and len(c["paths"]) > 1 and k % 4 == 1 and not c.get("late_accept")) else c for k, c in enumerate(mine)]
     scratch = common.Scratch("vf-c11")
     runner = Runner(scratch)
@@ -449,7 +470,7 @@ def shard(idx, n, tier, seed):
             res, unchanged = runner.run(case)
             judge(case, res, unchanged)
             ev.case(case, nontrivial(case), features=["family:" + case["fam"], "expect:" + str(expected_of(case))]
-                    + ([f"placement:{case['placement']}"] if case["fam"] == "A" else []) + (["accepted-after-a-first-evaluation"] if case.get("late_accept") else []) + (["one-path-already-stored"] if case.get("warm") else []))
+                    + ([f"placement:{case['placement']}"] if case["fam"] == "A" else []) + (["accepted-after-a-first-evaluation"] if case.get("late_accept") else []) + (["one-path-already-stored"] if case.get("warm") else []) + (["redefined-in-process"] if case.get("redefine") else []))
     finally:
         runner.close()
         scratch.clean()
